@@ -118,6 +118,27 @@ class _PadStatements(ast.NodeTransformer):
         return node
 
 
+class _WhileTrue(ast.NodeTransformer):
+    """`while c: body` -> `while True: if not c: break; body` (loops without else)"""
+    def visit_While(self, node):
+        self.generic_visit(node)
+        if not node.orelse and not (isinstance(node.test, ast.Constant) and node.test.value is True):
+            guard = ast.If(test=ast.UnaryOp(op=ast.Not(), operand=node.test), body=[ast.Break()], orelse=[])
+            return ast.copy_location(ast.While(test=ast.Constant(value=True), body=[guard] + node.body, orelse=[]), node)
+        return node
+
+
+class _ExtractTemps(ast.NodeTransformer):
+    """`return f(...)` -> `_ret = f(...); return _ret` and `x.m(g(y))` statement-level nesting kept; exercises def-use following"""
+    def visit_Return(self, node):
+        if node.value is not None and isinstance(node.value, (ast.Call, ast.BinOp, ast.IfExp, ast.Tuple)) and not any(
+                isinstance(x, (ast.Yield, ast.YieldFrom)) for x in ast.walk(node.value)):
+            tmp = ast.Name(id='_ret_value', ctx=ast.Store())
+            return [ast.copy_location(ast.Assign(targets=[tmp], value=node.value, lineno=node.lineno), node),
+                    ast.copy_location(ast.Return(value=ast.Name(id='_ret_value', ctx=ast.Load())), node)]
+        return node
+
+
 TWINS = {
     'unparse-roundtrip': [],
     'rename-locals': [_RenameLocals],
@@ -125,6 +146,8 @@ TWINS = {
     'aug-to-assign': [_AugToAssign],
     'swap-if-else': [_SwapIfElse],
     'pad-statements': [_PadStatements],
+    'while-true-break': [_WhileTrue],
+    'return-via-temp': [_ExtractTemps],
 }
 
 
